@@ -39,6 +39,9 @@ func (t *Tr) Emit(m M) {
 	t.lines++
 	if m["ev"] == "reset" {
 		t.cases++
+		// on disk before the case runs: if the library takes the whole process down (a Go fatal error such as out of
+		// memory or a stack overflow cannot be recovered), the driver finds which case it was
+		t.w.Flush()
 	}
 }
 
